@@ -164,11 +164,13 @@ class BodyTranslator:
             if ok:
                 return "(CopyIn filenames_to_copy)"
         if head == ("filename", "os.listdir(tmpdir_path)"):
-            ok = (len(body) == 1 and isinstance(body[0], ast.If) and not body[0].orelse
-                  and src(body[0].test) == "any([filename.endswith(ext) for ext in kept_file_exts])"
-                  and [src(x) for x in body[0].body if not is_logger_call(x)] == ["shutil.copy(filename, here)"])
-            if ok:
-                return "(CopyBack kept_file_exts)"
+            if (len(body) == 1 and isinstance(body[0], ast.If) and not body[0].orelse
+                    and src(body[0].test) == "any([filename.endswith(ext) for ext in kept_file_exts])"):
+                inner = [src(x) for x in body[0].body if not is_logger_call(x)]
+                if inner == ["shutil.copy(filename, here)"]:
+                    return "(CopyBack false kept_file_exts)"
+                if inner == ["shutil.copy(os.path.join(tmpdir_path, filename), here)"]:
+                    return "(CopyBack true kept_file_exts)"
         if head == ("env_var", "env_vars"):
             if [src(x) for x in body] == ["os.environ[env_var.name] = env_var.new_val"]:
                 return "(SetEnv env_vars)"
